@@ -76,6 +76,11 @@ func VH_G_ProgressSchedules() {
 	if vx.Opt("templates-ok", 1) == 1 && vx.TemplateTrouble() {
 		return
 	}
+	for i := 0; i < n; i++ {
+		if vx.YieldKind(i) == "router" && vx.YieldOutcome(i) == "error" {
+			return // the lemma is about fault-free instances; a router failure delays the schedule by a cycle
+		}
+	}
 	vx.Assert(vx.Or(bad, advanced >= vhMin64(int64(cfg.ScheduleBatchSize), mu)), "C11:schedule-sweep-makes-progress")
 	vx.Reach("done")
 }
